@@ -124,6 +124,7 @@ func (p *Parser) Read() (*base.T, error) {
 		'!',
 		'|',
 		'=',
+		'`',
 		'.':
 
 		t = base.MakeIdentifier(string(p.token))
